@@ -294,7 +294,7 @@ def spec_strategy(draw):
     return spec
 
 
-NONSTRING = [5, None, True, 1.5, ["alpha"], {"a": 1}, b"alpha", ("alpha",)]
+NONSTRING = [5, None, True, 1.5, ["alpha"], {"a": 1}, b"alpha", ("alpha",), (), ("alpha", "beta"), [], ["alpha", "beta"], {}]
 
 
 def lookalikes(n):
@@ -341,7 +341,7 @@ def case_strategy(draw):
             reqs.append([k, n])
     for v in draw(st.lists(st.sampled_from(range(len(NONSTRING))), max_size=2)):
         reqs.append([draw(st.sampled_from(["call", "batch", "oneway", "getattr", "setattr"])), {"$nonstring": v}])
-    return {"spec": spec, "reqs": reqs, "ser": draw(st.sampled_from(["serpent", "marshal", "json", "msgpack"]))}
+    return {"spec": spec, "reqs": reqs, "ser": draw(st.sampled_from(["serpent", "marshal", "json", "msgpack"])), "swap": draw(st.integers(0, 2)) == 0}
 
 
 # ------------------------------------------------------------------------------------------------
@@ -411,108 +411,116 @@ def run_case(case, servertype=None, keep=False):
 
     try:
         p._pyroBind()
-        # (3) advertised metadata == what the predicate says will be served
-        meta = p._pyroInvoke("get_metadata", [oid], {}, objectId="Pyro.Daemon")
-        adv_methods, adv_attrs, adv_oneway = set(meta["methods"]), set(meta["attrs"]), set(meta["oneway"])
-        exp_methods, exp_attrs, exp_oneway = expected_meta(resolved)
-        shadowed = {sh["name"] for sh in spec.get("shadows", [])}      # advertised per class, resolved per instance: not compared
-        adv_methods, adv_oneway, exp_methods, exp_oneway = adv_methods - shadowed, adv_oneway - shadowed, exp_methods - shadowed, exp_oneway - shadowed
-        if adv_methods != exp_methods:
-            viol("metadata:methods", "advertised methods %s, served methods %s" % (sorted(adv_methods), sorted(exp_methods)))
-        if adv_attrs != exp_attrs:
-            viol("metadata:attrs", "advertised attrs %s, served attrs %s" % (sorted(adv_attrs), sorted(exp_attrs)))
-        if adv_oneway != exp_oneway:
-            viol("metadata:oneway", "advertised oneway %s, expected %s" % (sorted(adv_oneway), sorted(exp_oneway)))
-        for kind, name in case["reqs"]:
-            if isinstance(name, dict):
-                name = NONSTRING[name["$nonstring"]]
-                if case.get("ser") == "json" and isinstance(name, (bytes, tuple)):
-                    continue
-                if case.get("ser") == "msgpack" and isinstance(name, tuple):
-                    name = list(name)
-            surplus = None
-            if "+" in kind:
-                kind, surplus = kind.split("+")       # attribute request carrying surplus arguments (ignored by a correct server)
-            want = served(resolved, kind, name)
-            if kind == "call" and type(name) is str and name in p._pyroOneway:
-                kind = "oneway"       # the proxy knows from the metadata that this method is oneway and sends it as such
-            token = "tok%d" % len(LOG)
-            del LOG[:]
-            before = _state(obj)
-            outcome = None
-            try:
-                if kind == "call":
-                    outcome = ("ok", p._pyroInvoke(name, (token,), {}))
-                elif kind == "oneway":
-                    outcome = ("ok", p._pyroInvoke(name, (token,), {}, flags=protocol.FLAGS_ONEWAY))
-                elif kind == "batch":
-                    r = p._pyroInvokeBatch([(name, (token,), {})])
-                    outcome = ("ok", r)
-                    if r and type(r[0]).__name__ == "_ExceptionWrapper":
-                        outcome = ("err", r[0].exception)
-                elif kind == "getattr":
-                    extra = {"F": (False,), "0": (0,), "N": (None,), "kw": ()}.get(surplus, ())
-                    outcome = ("ok", p._pyroInvoke("__getattr__", (name,) + extra, {"only_exposed": False} if surplus == "kw" else None))
-                elif kind == "setattr":
-                    extra = {"F": (False,), "0": (0,), "N": (None,), "kw": ()}.get(surplus, ())
-                    outcome = ("ok", p._pyroInvoke("__setattr__", (name, token) + extra, {"only_exposed": False} if surplus == "kw" else None))
-            except errors.CommunicationError as x:
-                outcome = ("comm", x)
-            except Exception as x:
-                outcome = ("err", x)
-            if kind == "oneway":
-                # barrier: a normal call on the same connection, then join the oneway threads started before it
+        for phase in range(2 if case.get("swap") else 1):
+            if phase == 1:
+                # the application replaces the object under this id by another one whose members have the same names and the OPPOSITE
+                # exposure, while the connection stays open: what is served now is decided by the new object alone
+                spec = flip_exposure(spec)
+                obj, resolved = build(spec)
+                S.daemon.unregister(oid)
+                S.daemon.register(obj, oid)
+            # (3) advertised metadata == what the predicate says will be served
+            meta = p._pyroInvoke("get_metadata", [oid], {}, objectId="Pyro.Daemon")
+            adv_methods, adv_attrs, adv_oneway = set(meta["methods"]), set(meta["attrs"]), set(meta["oneway"])
+            exp_methods, exp_attrs, exp_oneway = expected_meta(resolved)
+            shadowed = {sh["name"] for sh in spec.get("shadows", [])}      # advertised per class, resolved per instance: not compared
+            adv_methods, adv_oneway, exp_methods, exp_oneway = adv_methods - shadowed, adv_oneway - shadowed, exp_methods - shadowed, exp_oneway - shadowed
+            if adv_methods != exp_methods:
+                viol("metadata:methods", "advertised methods %s, served methods %s" % (sorted(adv_methods), sorted(exp_methods)))
+            if adv_attrs != exp_attrs:
+                viol("metadata:attrs", "advertised attrs %s, served attrs %s" % (sorted(adv_attrs), sorted(exp_attrs)))
+            if adv_oneway != exp_oneway:
+                viol("metadata:oneway", "advertised oneway %s, expected %s" % (sorted(adv_oneway), sorted(exp_oneway)))
+            for kind, name in case["reqs"]:
+                if isinstance(name, dict):
+                    name = NONSTRING[name["$nonstring"]]
+                    if case.get("ser") == "json" and isinstance(name, (bytes, tuple)):
+                        continue
+                    if case.get("ser") == "msgpack" and isinstance(name, tuple):
+                        name = list(name)
+                surplus = None
+                if "+" in kind:
+                    kind, surplus = kind.split("+")       # attribute request carrying surplus arguments (ignored by a correct server)
+                want = served(resolved, kind, name)
+                if kind == "call" and type(name) is str and name in p._pyroOneway:
+                    kind = "oneway"       # the proxy knows from the metadata that this method is oneway and sends it as such
+                token = "tok%d" % len(LOG)
+                del LOG[:]
+                before = _state(obj)
+                outcome = None
                 try:
-                    p._pyroInvoke("zz_sync", (), {})
+                    if kind == "call":
+                        outcome = ("ok", p._pyroInvoke(name, (token,), {}))
+                    elif kind == "oneway":
+                        outcome = ("ok", p._pyroInvoke(name, (token,), {}, flags=protocol.FLAGS_ONEWAY))
+                    elif kind == "batch":
+                        r = p._pyroInvokeBatch([(name, (token,), {})])
+                        outcome = ("ok", r)
+                        if r and type(r[0]).__name__ == "_ExceptionWrapper":
+                            outcome = ("err", r[0].exception)
+                    elif kind == "getattr":
+                        extra = {"F": (False,), "0": (0,), "N": (None,), "kw": ()}.get(surplus, ())
+                        outcome = ("ok", p._pyroInvoke("__getattr__", (name,) + extra, {"only_exposed": False} if surplus == "kw" else None))
+                    elif kind == "setattr":
+                        extra = {"F": (False,), "0": (0,), "N": (None,), "kw": ()}.get(surplus, ())
+                        outcome = ("ok", p._pyroInvoke("__setattr__", (name, token) + extra, {"only_exposed": False} if surplus == "kw" else None))
+                except errors.CommunicationError as x:
+                    outcome = ("comm", x)
                 except Exception as x:
-                    viol("oneway-reply", "%s request for %r: the following call failed with %r (stray reply / broken connection)" % (kind, name, x))
-                    p._pyroRelease()
-                _join_oneway_threads()
-            with LOCK:
-                entries = list(LOG)
-            ran = [e for e in entries if e[0] != "zz_sync"]
-            after = _state(obj)
-            label = "%s %r (%s)" % (kind, name, featureof(name))
-            if outcome[0] == "comm":
-                viol("dropped:" + kind, "%s: no reply, connection failed with %r" % (label, outcome[1]))
-                try:
-                    p._pyroReconnect(2)
-                except Exception:
-                    pass
-                continue
-            if want is None:
-                if ran:
-                    feat = featureof(name)
-                    sig = "ran-unexposed:%s:%s" % ("callkinds" if kind in ("call", "batch", "oneway") else kind,
-                                                   "property" if feat.startswith("prop") else feat)
-                    if feat.startswith("helper") and any(e[0] == "helper.__call__" for e in ran):
-                        m = resolved[name]
-                        sig = "ran-unexposed:callable-attr-of-%s-class" % ("exposed" if m.get("helper_exposed") else "unexposed")
-                    viol(sig, "%s must be refused but code ran: %r" % (label, ran))
-                helper_called = any(e[0] == "helper.__call__" for e in ran)
-                if kind != "oneway" and outcome[0] != "err" and not helper_called:
-                    viol("no-error:" + kind, "%s must be refused with an error reply but returned %r" % (label, outcome[1]))
-                if after != before:
-                    viol("state-changed", "%s was refused but the object changed: %r -> %r" % (label, before, after))
-            elif want == "getter-may-run":
-                bad = [e for e in ran if not (e[0] == name and e[1] == "get")]
-                if bad:
-                    viol("ran-other", "%s: other code ran: %r" % (label, bad))
-                if kind != "oneway" and outcome[0] != "err":
-                    viol("no-error:" + kind, "%s: calling a property must fail but returned %r" % (label, outcome[1]))
-            else:
-                expect = {"call": (name, "call", (token,), {}), "get": (name, "get"), "set": (name, "set", token)}[want]
-                norm = [tuple(e[:2]) + tuple(tuple(x) if isinstance(x, list) else x for x in e[2:]) for e in ran]
-                if norm != [expect]:
-                    viol("served-wrong:" + kind, "%s must run exactly %r but the log is %r (outcome %r)" % (label, expect, ran, outcome))
-                if kind in ("call", "getattr") and outcome[0] == "ok":
-                    exp_res = ["ran", name] if want == "call" else ["value", name]
-                    if list(outcome[1]) != exp_res:
-                        viol("served-wrong:" + kind, "%s returned %r" % (label, outcome[1]))
-                if kind != "oneway" and outcome[0] == "err":
-                    viol("served-refused:" + kind, "%s is exposed but was refused with %r" % (label, outcome[1]))
-                if kind == "oneway" and outcome[1] is not None:
-                    viol("oneway-reply", "%s returned %r" % (label, outcome[1]))
+                    outcome = ("err", x)
+                if kind == "oneway":
+                    # barrier: a normal call on the same connection, then join the oneway threads started before it
+                    try:
+                        p._pyroInvoke("zz_sync", (), {})
+                    except Exception as x:
+                        viol("oneway-reply", "%s request for %r: the following call failed with %r (stray reply / broken connection)" % (kind, name, x))
+                        p._pyroRelease()
+                    _join_oneway_threads()
+                with LOCK:
+                    entries = list(LOG)
+                ran = [e for e in entries if e[0] != "zz_sync"]
+                after = _state(obj)
+                label = "%s %r (%s)" % (kind, name, featureof(name))
+                if outcome[0] == "comm":
+                    viol("dropped:" + kind, "%s: no reply, connection failed with %r" % (label, outcome[1]))
+                    try:
+                        p._pyroReconnect(2)
+                    except Exception:
+                        pass
+                    continue
+                if want is None:
+                    if ran:
+                        feat = featureof(name)
+                        sig = "ran-unexposed:%s:%s" % ("callkinds" if kind in ("call", "batch", "oneway") else kind,
+                                                       "property" if feat.startswith("prop") else feat)
+                        if feat.startswith("helper") and any(e[0] == "helper.__call__" for e in ran):
+                            m = resolved[name]
+                            sig = "ran-unexposed:callable-attr-of-%s-class" % ("exposed" if m.get("helper_exposed") else "unexposed")
+                        viol(sig, "%s must be refused but code ran: %r" % (label, ran))
+                    helper_called = any(e[0] == "helper.__call__" for e in ran)
+                    if kind != "oneway" and outcome[0] != "err" and not helper_called:
+                        viol("no-error:" + kind, "%s must be refused with an error reply but returned %r" % (label, outcome[1]))
+                    if after != before:
+                        viol("state-changed", "%s was refused but the object changed: %r -> %r" % (label, before, after))
+                elif want == "getter-may-run":
+                    bad = [e for e in ran if not (e[0] == name and e[1] == "get")]
+                    if bad:
+                        viol("ran-other", "%s: other code ran: %r" % (label, bad))
+                    if kind != "oneway" and outcome[0] != "err":
+                        viol("no-error:" + kind, "%s: calling a property must fail but returned %r" % (label, outcome[1]))
+                else:
+                    expect = {"call": (name, "call", (token,), {}), "get": (name, "get"), "set": (name, "set", token)}[want]
+                    norm = [tuple(e[:2]) + tuple(tuple(x) if isinstance(x, list) else x for x in e[2:]) for e in ran]
+                    if norm != [expect]:
+                        viol("served-wrong:" + kind, "%s must run exactly %r but the log is %r (outcome %r)" % (label, expect, ran, outcome))
+                    if kind in ("call", "getattr") and outcome[0] == "ok":
+                        exp_res = ["ran", name] if want == "call" else ["value", name]
+                        if list(outcome[1]) != exp_res:
+                            viol("served-wrong:" + kind, "%s returned %r" % (label, outcome[1]))
+                    if kind != "oneway" and outcome[0] == "err":
+                        viol("served-refused:" + kind, "%s is exposed but was refused with %r" % (label, outcome[1]))
+                    if kind == "oneway" and outcome[1] is not None:
+                        viol("oneway-reply", "%s returned %r" % (label, outcome[1]))
     finally:
         try:
             p._pyroRelease()
@@ -525,6 +533,15 @@ def run_case(case, servertype=None, keep=False):
         if not keep:
             _teardown()
     return V_
+
+
+def flip_exposure(spec):
+    """the same members with every per-member exposure flag inverted and no class-level exposure"""
+    def flip(ms):
+        return [dict(m, exposed=not m.get("exposed")) for m in ms]
+    out = dict(spec, base=flip(spec["base"]), sub=flip(spec["sub"]), base_exposed=False, sub_exposed=False)
+    out.pop("shadows", None)
+    return out
 
 
 def expected_meta(resolved):
